@@ -193,16 +193,39 @@ class AiohttpHop:
             d.add_methods(self.service.registry())
             _wrap_dispatch(w, d, self.node, self.log, 'sub')
 
-    def post(self, url: str, body: bytes, content_type: Optional[str]) -> HopResult:
+    def post(self, url: str, body: bytes, content_type: Optional[str],
+             pieces: Optional[List[Tuple[float, int]]] = None) -> HopResult:
+        """``pieces``: network delivery of the body as [(delay before this piece, number of bytes)], the first piece
+        being there when the handler starts; the rest arrives on the virtual clock while the handler is running."""
         res = HopResult()
         loop = self.loop
         app = self.rpc.app
+        w = self.w
 
         async def go() -> None:
             headers = {'Content-Type': content_type} if content_type is not None else {}
+            headers['Content-Length'] = str(len(body))
             sr = streams.StreamReader(mock.Mock(), 2 ** 16, loop=loop)
-            sr.feed_data(body)
-            sr.feed_eof()
+            if not pieces:
+                sr.feed_data(body)
+                sr.feed_eof()
+            else:
+                chunks, pos = [], 0
+                for idx, (_, n) in enumerate(pieces):
+                    chunk = body[pos:pos + n] if idx < len(pieces) - 1 else body[pos:]
+                    pos += len(chunk)
+                    chunks.append(chunk)
+
+                def feed(idx: int) -> None:
+                    # segments arrive in order (TCP): each arrival schedules the next one
+                    if chunks[idx]:
+                        sr.feed_data(chunks[idx])
+                    if idx == len(chunks) - 1:
+                        sr.feed_eof()
+                    else:
+                        loop.call_later(pieces[idx + 1][0], feed, idx + 1)
+                feed(0)
+                w.fault('body_in_pieces', pieces=len(pieces))
             req = make_mocked_request('POST', url, headers=headers, payload=sr, app=app, loop=loop)
             match = await app.router.resolve(req)
             try:
